@@ -48,8 +48,9 @@ pub fn order_rules() -> Vec<Rewrite> { vec![
         if is_orderby("?keys", "?child")
     ),
     rw!("merge-join";
-        "(hashjoin ?type ?cond ?lkey ?rkey ?left ?right)" =>
-        "(mergejoin ?type ?cond ?lkey ?rkey ?left ?right)"
+        "(hashjoin ?type true ?lkey ?rkey ?left ?right)" =>
+        "(mergejoin ?type true ?lkey ?rkey ?left ?right)"
+        if is_merge_join_type("?type")
         if is_orderby("?lkey", "?left")
         if is_orderby("?rkey", "?right")
     ),
@@ -59,6 +60,19 @@ pub fn order_rules() -> Vec<Rewrite> { vec![
         if is_orderby("?keys", "?child")
     ),
 ]}
+
+/// Returns true if the join type is supported by the merge join executor.
+fn is_merge_join_type(ty: &str) -> impl Fn(&mut EGraph, Id, &Subst) -> bool {
+    let ty = var(ty);
+    move |egraph, _, subst| {
+        egraph[subst[ty]].nodes.iter().any(|node| {
+            matches!(
+                node,
+                Expr::Inner | Expr::LeftOuter | Expr::RightOuter | Expr::FullOuter
+            )
+        })
+    }
+}
 
 /// Returns true if the plan is ordered by the keys.
 fn is_orderby(keys: &str, plan: &str) -> impl Fn(&mut EGraph, Id, &Subst) -> bool {
